@@ -10,73 +10,78 @@ Lemma has_zero g : has 0 g = false.
 Proof. apply N.bits_0. Qed.
 
 (* ---------------------------------------------------------------- sessions *)
-Lemma attached_in s cs c : In c (attached s cs) -> In c (issued s).
+Lemma attached_in s cs c : In (Some c) (attached s cs) -> In c (issued s).
 Proof.
-  induction cs as [|i r IH]; simpl; [tauto|].
-  destruct (nth_error (issued s) i) eqn:E; [|exact IH].
-  intros [<-|H]; [eapply nth_error_In; eauto|auto].
+  unfold attached. rewrite in_map_iff. intros [i [H _]]. eapply nth_error_In; eauto.
 Qed.
 
-Lemma last_some_in {A} (l : list A) c : last (map Some l) None = Some c -> In c l.
+Lemma last_in {A} (l : list A) (d x : A) : last l d = x -> x <> d -> In x l.
 Proof.
-  induction l as [|a r IH]; [discriminate|]. cbn [map]. destruct r as [|b r'].
-  - simpl. intros H. inversion H. now left.
-  - intros H. right. apply IH. exact H.
+  induction l as [|a r IH]; [simpl; intros -> H; contradiction|]. destruct r as [|b r'].
+  - simpl. intros -> _. now left.
+  - intros H Hd. right. apply IH; assumption.
 Qed.
 
-Lemma pick_in k l c : pick k l = Some c -> In c l.
+Lemma pick_sel_in b s cs c : pick_sel b (attached s cs) = Some c -> In c (issued s).
 Proof.
-  unfold pick. destruct (sel_last k).
-  - apply last_some_in.
-  - destruct l; simpl; [discriminate|]. intros H; inversion H; now left.
+  unfold pick_sel. destruct b; intros H; apply (attached_in s cs).
+  - apply (last_in _ None); [exact H|discriminate].
+  - destruct (attached s cs); simpl in H; [discriminate|]. subst. now left.
+Qed.
+
+Lemma session_pick k s cs m c : session k s cs m = Some c -> pick k (attached s cs) = Some c /\ (now s < cexp c)%Z.
+Proof.
+  unfold session. destruct (pick k (attached s cs)) as [c'|] eqn:P; [|discriminate].
+  destruct (cexp c' <=? now s)%Z eqn:E; [discriminate|]. apply Z.leb_gt in E.
+  destruct (N.eqb (N.land (clevel c') m) 0); [discriminate|]. intros H; inversion H; subst. auto.
 Qed.
 
 Lemma session_in k s cs m c : session k s cs m = Some c -> In c (issued s).
-Proof.
-  unfold session. destruct (pick k (attached s cs)) as [c'|] eqn:P; [|discriminate].
-  destruct (N.eqb (N.land (clevel c') m) 0); [discriminate|]. intros H; inversion H; subst.
-  eapply attached_in, pick_in; eauto.
-Qed.
+Proof. intros H. apply session_pick in H. destruct H as [H _]. eapply pick_sel_in; exact H. Qed.
 
 (* ---------------------------------------------------------------- the provenance invariant *)
+(* factor f was verified for user u at or after time t0 *)
+Definition since (P : list (N * N * Z)) (u f : N) (t0 : Z) : Prop := exists t, (t0 <= t)%Z /\ In (u, f, t) P.
+
+Lemma since_incl P P' u f t0 : incl P P' -> since P u f t0 -> since P' u f t0.
+Proof. intros Hi [t [H1 H2]]. exists t. split; [exact H1|apply Hi, H2]. Qed.
+
+Lemma since_earlier P u f t0 t1 : (t1 <= t0)%Z -> since P u f t0 -> since P u f t1.
+Proof. intros Hle [t [H1 H2]]. exists t. split; [lia|exact H2]. Qed.
+
+(* every factor of every issued cookie was verified for the cookie's own user DURING the session
+   the cookie belongs to: not before the session's iat (which the upgrade keeps) *)
+Definition justified (s : st) (c : cookie) : Prop :=
+  (ciat c <= now s)%Z /\ forall f, has (clevel c) f = true -> since (proved s) (cuser c) f (ciat c).
+
 Definition Inv (s : st) : Prop :=
-  (forall c, In c (issued s) -> forall f, has (clevel c) f = true -> In (cuser c, f) (proved s)) /\
+  (forall c, In c (issued s) -> justified s c) /\
   (forall e, In e (txs s) -> (fst e < fresh s)%N) /\
   (forall e, In e (vip s) -> tx_user s (vtx e) = Some (vuser e)) /\
-  (forall tx, In tx (approved s) -> exists u, tx_user s tx = Some u /\ In (u, F_VIP) (proved s)).
+  (forall tx, In tx (approved s) -> exists u t, tx_user s tx = Some u /\ In (u, F_VIP, t) (proved s)).
 
 Lemma Inv_init : Inv init.
 Proof. repeat split; simpl; intros; contradiction. Qed.
 
-(* steps that leave the VIP bookkeeping alone, only add to `proved`, and only add cookies whose
-   every factor is proved for their user *)
+(* steps that leave the VIP bookkeeping alone, only add to `proved`, never turn the clock back, and
+   only add justified cookies *)
 Lemma Inv_mono s s' :
   Inv s -> txs s' = txs s -> vip s' = vip s -> approved s' = approved s -> (fresh s <= fresh s')%N ->
-  incl (proved s) (proved s') ->
-  (forall c, In c (issued s') -> In c (issued s) \/
-                                 (forall f, has (clevel c) f = true -> In (cuser c, f) (proved s'))) ->
+  incl (proved s) (proved s') -> (now s <= now s')%Z ->
+  (forall c, In c (issued s') -> In c (issued s) \/ justified s' c) ->
   Inv s'.
 Proof.
-  intros [I1 [I2 [I3 I4]]] Ht Hv Ha Hf Hp Hc. unfold Inv, tx_user. rewrite Ht, Hv, Ha.
+  intros [I1 [I2 [I3 I4]]] Ht Hv Ha Hf Hp Hn Hc. unfold Inv, tx_user. rewrite Ht, Hv, Ha.
   split; [|split; [|split]].
-  - intros c Hin f Hf'. destruct (Hc c Hin) as [Hold|Hnew]; [apply Hp, (I1 c Hold f Hf')|apply Hnew, Hf'].
+  - intros c Hin. destruct (Hc c Hin) as [Hold|Hnew]; [|exact Hnew].
+    destruct (I1 c Hold) as [J1 J2]. split; [lia|]. intros f Hf'. apply (since_incl (proved s)); [exact Hp|apply J2, Hf'].
   - intros e He. specialize (I2 e He). lia.
   - exact I3.
-  - intros tx Htx. destruct (I4 tx Htx) as [u [H1 H2]]. exists u. split; [exact H1|apply Hp, H2].
+  - intros tx Htx. destruct (I4 tx Htx) as [u [t [H1 H2]]]. exists u, t. split; [exact H1|apply Hp, H2].
 Qed.
 
 Lemma in_app_single {A} (l : list A) x c : In c (l ++ [x]) -> In c l \/ c = x.
 Proof. intros H. apply in_app_or in H. destruct H as [H|[H|[]]]; auto. Qed.
-
-(* the re-signed cookie: old factors of the session cookie plus one factor proved for its user *)
-Lemma upgraded_ok s c f P :
-  Inv s -> In c (issued s) -> incl (proved s) P -> In (cuser c, f) P ->
-  forall g, has (add (clevel c) f) g = true -> In (cuser c, g) P.
-Proof.
-  intros [I1 _] Hc Hp Hf g Hg. rewrite has_add in Hg. apply orb_true_iff in Hg. destruct Hg as [Hg|Hg].
-  - apply Hp, (I1 c Hc g Hg).
-  - apply N.eqb_eq in Hg. subst g. exact Hf.
-Qed.
 
 Lemma tx_user_cons_other s tx u tx' :
   tx <> tx' ->
@@ -91,8 +96,12 @@ Proof.
   apply find_some in F. destruct F as [Hin He]. apply N.eqb_eq in He. subst tx. apply I2, Hin.
 Qed.
 
-Lemma find_vip_in s v e : find_vip s v = Some e -> In e (vip s).
-Proof. unfold find_vip. intros H. apply find_some in H. tauto. Qed.
+Lemma find_vip_in k s v e : find_vip k s v = Some e -> In e (vip s).
+Proof.
+  unfold find_vip, find_vip_raw. destruct (find (fun e0 => N.eqb (vc e0) v) (vip s)) as [e0|] eqn:F; [|discriminate].
+  destruct (vip_expiry k && (vexp e0 <=? now s)%Z); [discriminate|]. intros H; inversion H; subst.
+  apply find_some in F. tauto.
+Qed.
 
 Lemma is_approved_in s tx : is_approved s tx = true -> In tx (approved s).
 Proof. unfold is_approved. rewrite existsb_exists. intros [x [Hx E]]. apply N.eqb_eq in E. now subst. Qed.
@@ -104,7 +113,7 @@ Ltac break_step :=
   | |- context [match ?x with VGood _ => _ | VBad => _ end] => destruct x
   | |- context [match ?x with TCode _ _ => _ | TBad => _ end] => destruct x
   | |- context [match ?x with BCode _ _ => _ | BBad => _ end] => destruct x
-  | |- context [match find_vip ?s ?v with _ => _ end] => destruct (find_vip s v) eqn:?
+  | |- context [match find_vip ?k ?s ?v with _ => _ end] => destruct (find_vip k s v) eqn:?
   | |- context [match tx_user ?s ?v with _ => _ end] => destruct (tx_user s v) eqn:?
   | |- context [match chal ?s ?v with _ => _ end] => destruct (chal s v) eqn:?
   | |- context [match boot ?s ?v with _ => _ end] => destruct (boot s v) eqn:?
@@ -113,8 +122,8 @@ Ltac break_step :=
   end.
 
 Ltac sset := cbn [issued tokens vip txs approved chal last_totp boot proved spent now fresh
-                  set_ghost set_issued set_chal set_boot set_totp fst snd cuser clevel].
-Ltac mono s := apply (Inv_mono s); sset; auto using incl_refl, incl_tl, N.le_refl; try lia.
+                  set_ghost set_issued set_chal set_boot set_totp fst snd cuser clevel ciat cexp].
+Ltac mono s := apply (Inv_mono s); sset; auto using incl_refl, incl_tl, N.le_refl, Z.le_refl; try lia.
 
 Ltac clean :=
   repeat match goal with
@@ -125,22 +134,41 @@ Ltac clean :=
 
 (* ---- what a request is authenticated as ---- *)
 Lemma attached_ext s s' cs : issued s' = issued s -> attached s' cs = attached s cs.
-Proof. intros H. induction cs as [|i r IH]; [reflexivity|]. cbn [attached]. rewrite H, IH. reflexivity. Qed.
+Proof. intros H. unfold attached. rewrite H. reflexivity. Qed.
 
-(* the client certificate's user has the certificate factor on record *)
+(* the client certificate's user has the certificate factor on record, verified now *)
 Definition cert_known (s : st) (cert : option N) : Prop :=
-  forall u, cert = Some u -> In (u, F_X509) (proved s).
+  forall u, cert = Some u -> In (u, F_X509, now s) (proved s).
 
+(* every factor of the authenticated level was verified for the authenticated user — and not
+   before the iat of the cookie the upgrade is going to re-sign, when both functions look at the
+   same one of several attached cookies *)
+Lemma auth_since k s cert cs m u l :
+  sel_last k = upg_last k -> Inv s -> cert_known s cert -> auth k s cert cs m = Some (u, l) ->
+  forall c, pick_sel (upg_last k) (attached s cs) = Some c ->
+  forall g, has l g = true -> since (proved s) u g (ciat c).
+Proof.
+  intros Hsel [I1 _] Hc. unfold auth.
+  destruct (if N.eqb (N.land m cert_mask) 0 then None else cert) as [u0|] eqn:E.
+  - intros H c Hp g Hg. inversion H; subst u0 l. rewrite has_add, has_zero in Hg. apply N.eqb_eq in Hg. subst g.
+    destruct (I1 c (pick_sel_in _ _ _ _ Hp)) as [J1 _]. exists (now s). split; [exact J1|].
+    apply Hc. destruct (N.eqb (N.land m cert_mask) 0); [discriminate|exact E].
+  - destruct (session k s cs m) as [c0|] eqn:S; [|discriminate]. intros H c Hp g Hg. inversion H; subst u l.
+    destruct (session_pick _ _ _ _ _ S) as [P _]. unfold pick in P. rewrite Hsel, Hp in P. inversion P; subst c0.
+    destruct (I1 c (pick_sel_in _ _ _ _ Hp)) as [_ J2]. apply J2, Hg.
+Qed.
+
+(* ... in any case it was verified for that user at some time *)
 Lemma auth_proved k s cert cs m u l :
   Inv s -> cert_known s cert -> auth k s cert cs m = Some (u, l) ->
-  forall g, has l g = true -> In (u, g) (proved s).
+  forall g, has l g = true -> exists t, In (u, g, t) (proved s).
 Proof.
   intros [I1 _] Hc. unfold auth.
   destruct (if N.eqb (N.land m cert_mask) 0 then None else cert) as [u0|] eqn:E.
   - intros H g Hg. inversion H; subst u0 l. rewrite has_add, has_zero in Hg. apply N.eqb_eq in Hg. subst g.
-    apply Hc. destruct (N.eqb (N.land m cert_mask) 0); [discriminate|exact E].
+    exists (now s). apply Hc. destruct (N.eqb (N.land m cert_mask) 0); [discriminate|exact E].
   - destruct (session k s cs m) as [c|] eqn:S; [|discriminate]. intros H g Hg. inversion H; subst u l.
-    apply (I1 c (session_in _ _ _ _ _ S) g Hg).
+    destruct (I1 c (session_in _ _ _ _ _ S)) as [_ J2]. destruct (J2 g Hg) as [t [_ Ht]]. exists t. exact Ht.
 Qed.
 
 (* updateAuthCookieAuthlevel touches nothing but the list of issued cookies *)
@@ -150,20 +178,22 @@ Lemma upgrade_fields k s u cs lvl s2 out :
   last_totp s2 = last_totp s /\ boot s2 = boot s /\ proved s2 = proved s /\ spent s2 = spent s /\
   now s2 = now s /\ fresh s2 = fresh s.
 Proof.
-  unfold upgrade. destruct (pick k (attached s cs)) as [c|]; [|intros H; inversion H; subst; repeat split].
+  unfold upgrade. destruct (pick_sel (upg_last k) (attached s cs)) as [c|]; [|intros H; inversion H; subst; repeat split].
   destruct (upgrade_checks_owner k && negb (N.eqb (cuser c) u)); intros H; inversion H; subst; repeat split.
 Qed.
 
-(* ... and the cookie it adds belongs to the authenticated user (repaired code) and carries the
-   level it was given *)
+(* ... and the cookie it adds is the chosen cookie of the authenticated user (repaired code) with
+   the level it was given; sub, iat and exp are kept *)
 Lemma upgrade_issued k s u cs lvl s2 out :
   upgrade_checks_owner k = true -> upgrade k s u cs lvl = (s2, out) ->
   (issued s2 = issued s /\ out = None) \/
-  (issued s2 = issued s ++ [{| cuser := u; clevel := lvl |}] /\ out = Some {| cuser := u; clevel := lvl |}).
+  (exists c, pick_sel (upg_last k) (attached s cs) = Some c /\ cuser c = u /\
+             let c' := {| cuser := u; clevel := lvl; ciat := ciat c; cexp := cexp c |} in
+             issued s2 = issued s ++ [c'] /\ out = Some c').
 Proof.
-  intros Hk. unfold upgrade. destruct (pick k (attached s cs)) as [c|]; [|intros H; inversion H; subst; now left].
+  intros Hk. unfold upgrade. destruct (pick_sel (upg_last k) (attached s cs)) as [c|]; [|intros H; inversion H; subst; now left].
   rewrite Hk. cbn [andb]. destruct (N.eqb (cuser c) u) eqn:E; cbn [negb]; intros H; inversion H; subst.
-  - apply N.eqb_eq in E. rewrite E. right. split; reflexivity.
+  - apply N.eqb_eq in E. right. exists c. rewrite E. repeat split; reflexivity.
   - now left.
 Qed.
 
@@ -172,52 +202,69 @@ Qed.
 Lemma upgrade_ghost_Inv k s s1 u cs lvl s2 out extra sp :
   upgrade_checks_owner k = true -> Inv s ->
   issued s1 = issued s -> txs s1 = txs s -> vip s1 = vip s -> approved s1 = approved s ->
-  proved s1 = proved s -> (fresh s <= fresh s1)%N ->
+  proved s1 = proved s -> (fresh s <= fresh s1)%N -> now s1 = now s ->
   upgrade k s1 u cs lvl = (s2, out) ->
-  (forall g, has lvl g = true -> In (u, g) (extra ++ proved s)) ->
+  (forall c, pick_sel (upg_last k) (attached s cs) = Some c ->
+             forall g, has lvl g = true -> since (extra ++ proved s) u g (ciat c)) ->
   Inv (set_ghost s2 (extra ++ proved s2) sp).
 Proof.
-  intros Hk HI Hi Ht Hv Ha Hp Hf HU Hl.
-  destruct (upgrade_fields _ _ _ _ _ _ _ HU) as [_ [F2 [F3 [F4 [_ [_ [_ [F8 [_ [_ F11]]]]]]]]]].
+  intros Hk HI Hi Ht Hv Ha Hp Hf Hn HU Hl.
+  destruct (upgrade_fields _ _ _ _ _ _ _ HU) as [_ [F2 [F3 [F4 [_ [_ [_ [F8 [_ [F10 F11]]]]]]]]]].
   apply (Inv_mono s); sset; try congruence; try exact HI.
   - rewrite F8, Hp. apply incl_appr, incl_refl.
+  - rewrite F10, Hn. apply Z.le_refl.
   - intros c Hc. rewrite F8, Hp.
-    destruct (upgrade_issued _ _ _ _ _ _ _ Hk HU) as [[E _]|[E _]]; rewrite E, Hi in Hc.
+    destruct (upgrade_issued _ _ _ _ _ _ _ Hk HU) as [[E _]|[c0 [P [Hu [E _]]]]]; rewrite E, Hi in Hc.
     + now left.
-    + apply in_app_single in Hc. destruct Hc as [Hc| ->]; [now left|right]. cbn [cuser clevel]. exact Hl.
+    + apply in_app_single in Hc. destruct Hc as [Hc| ->]; [now left|right].
+      rewrite (attached_ext s s1 cs Hi) in P. destruct HI as [I1 _].
+      destruct (I1 c0 (pick_sel_in _ _ _ _ P)) as [J1 _].
+      split; sset; [rewrite F10, Hn; exact J1|]. intros g Hg. apply (Hl c0 P g Hg).
 Qed.
 
-Lemma add_level_proved (P : list (N * N)) u l f :
-  (forall g, has l g = true -> In (u, g) P) -> In (u, f) P ->
-  forall g, has (add l f) g = true -> In (u, g) P.
+Lemma add_level_since (P : list (N * N * Z)) u l f t0 :
+  (forall g, has l g = true -> since P u g t0) -> since P u f t0 ->
+  forall g, has (add l f) g = true -> since P u g t0.
 Proof.
   intros Hl Hf g Hg. rewrite has_add in Hg. apply orb_true_iff in Hg. destruct Hg as [Hg|Hg]; [apply Hl, Hg|].
   apply N.eqb_eq in Hg. subst g. exact Hf.
 Qed.
 
+(* a factor recorded now counts for every issued cookie *)
+Lemma since_now s c u f (extra : list (N * N * Z)) b cs :
+  Inv s -> pick_sel b (attached s cs) = Some c -> In (u, f, now s) extra -> since (extra ++ proved s) u f (ciat c).
+Proof.
+  intros [I1 _] P Hin. destruct (I1 c (pick_sel_in _ _ _ _ P)) as [J1 _].
+  exists (now s). split; [exact J1|apply in_or_app; left; exact Hin].
+Qed.
+
 (* close a goal  Inv (set_ghost s2 (extra ++ proved s2) sp)  where s2 comes out of an upgrade *)
-Ltac up_inv k s extra Hu HI Hc :=
+Ltac up_inv k s extra Hsel Hu HI Hc :=
   match goal with HA : auth _ _ _ _ _ = Some (?u, ?l), HU : upgrade _ ?s1 ?u ?cs ?lvl = (_, _) |- _ =>
-    let HL := fresh "HL" in
-    pose proof (auth_proved _ _ _ _ _ _ _ HI Hc HA) as HL;
+    let HL := fresh "HL" in let c0 := fresh "c0" in let P0 := fresh "P0" in
+    pose proof (auth_since _ _ _ _ _ _ _ Hsel HI Hc HA) as HL;
     eapply (upgrade_ghost_Inv k s s1 u cs lvl _ _ extra _ Hu HI);
     [ sset; first [reflexivity | apply N.le_refl] .. | exact HU | ];
-    repeat (apply add_level_proved);
-    [ intros g Hg; apply in_or_app; right; apply HL, Hg | cbn [app In]; auto .. ]
+    intros c0 P0;
+    repeat (apply add_level_since);
+    [ intros g Hg; apply (since_incl (proved s)); [apply incl_appr, incl_refl|apply (HL c0 P0 g Hg)]
+    | apply (since_now s c0 _ _ extra _ cs HI P0); cbn [In]; auto .. ]
   end.
 
 Lemma step_req_Inv k cert fault s o :
-  poll_checks_user k = true -> upgrade_checks_owner k = true ->
+  sel_last k = upg_last k -> poll_checks_user k = true -> upgrade_checks_owner k = true ->
   Inv s -> cert_known s cert -> Inv (fst (step_req k cert fault s o)).
 Proof.
-  intros Hk Hu HI Hc. destruct o; cbn [step_req]; try exact HI.
+  intros Hsel Hk Hu HI Hc. destruct o; cbn [step_req]; try exact HI.
   - (* Login *)
     break_step; sset; try exact HI. mono s.
-    intros c' Hin. apply in_app_single in Hin. destruct Hin as [Hin| ->]; [now left|right]. cbn [cuser clevel].
-    intros g Hg. rewrite has_add, has_zero in Hg. apply N.eqb_eq in Hg. subst g. now left.
+    intros c' Hin. apply in_app_single in Hin. destruct Hin as [Hin| ->]; [now left|right].
+    split; sset; [apply Z.le_refl|].
+    intros g Hg. rewrite has_add, has_zero in Hg. apply N.eqb_eq in Hg. subst g.
+    exists (now s). split; [apply Z.le_refl|now left].
   - (* VipOtp *)
     break_step; sset; try exact HI. clean; subst.
-    match goal with |- Inv (set_ghost _ (?x :: _) _) => up_inv k s [x] Hu HI Hc end.
+    match goal with |- Inv (set_ghost _ (?x :: _) _) => up_inv k s [x] Hsel Hu HI Hc end.
   - (* PushStart *)
     break_step; sset; try exact HI.
     pose proof HI as [I1 [I2 [I3 I4]]]. unfold Inv; sset. split; [exact I1|split; [|split]].
@@ -227,58 +274,56 @@ Proof.
       * pose proof (I3 e He) as I3e. unfold tx_user; cbn [txs find fst snd].
         destruct (N.eqb (fresh s) (vtx e)) eqn:E; [|exact I3e].
         apply N.eqb_eq in E. pose proof (tx_user_lt s (vtx e) (vuser e) HI I3e). lia.
-    + intros tx Htx. destruct (I4 tx Htx) as [u [H1 H2]]. exists u. split; [|exact H2].
+    + intros tx Htx. destruct (I4 tx Htx) as [u [t [H1 H2]]]. exists u, t. split; [|exact H2].
       unfold tx_user; cbn [txs find fst snd]. destruct (N.eqb (fresh s) tx) eqn:E; [|exact H1].
       apply N.eqb_eq in E. pose proof (tx_user_lt s tx u HI H1). lia.
   - (* Approve *)
     break_step; sset; try exact HI.
     pose proof HI as [I1 [I2 [I3 I4]]]. unfold Inv; sset. split; [|split; [exact I2|split; [exact I3|]]].
-    + intros c Hin f Hf. right. apply (I1 c Hin f Hf).
+    + intros c Hin. destruct (I1 c Hin) as [J1 J2]. split; sset; [exact J1|].
+      intros f Hf. apply (since_incl (proved s)); [apply incl_tl, incl_refl|apply J2, Hf].
     + intros tx' [<-|Htx].
-      * eexists. split; [eassumption|now left].
-      * destruct (I4 tx' Htx) as [u [H1 H2]]. exists u. split; [exact H1|now right].
+      * eexists. exists (now s). split; [eassumption|now left].
+      * destruct (I4 tx' Htx) as [u [t [H1 H2]]]. exists u, t. split; [exact H1|now right].
   - (* Poll *)
     destruct (auth k s cert cs any_mask) as [[u l]|] eqn:HA; [|exact HI].
-    destruct (find_vip s v) as [e|] eqn:Hv; [|exact HI]. rewrite Hk. cbn [andb].
+    destruct (find_vip k s v) as [e|] eqn:Hv; [|exact HI]. rewrite Hk. cbn [andb].
     destruct (negb (N.eqb (vuser e) u)) eqn:Hne; [exact HI|].
     destruct (is_approved s (vtx e)) eqn:Ha; [|exact HI].
     apply negb_false_iff, N.eqb_eq in Hne. pose proof HI as [I1 [I2 [I3 I4]]].
-    apply is_approved_in in Ha. destruct (I4 _ Ha) as [u0 [H1 H2]].
-    rewrite (I3 e (find_vip_in _ _ _ Hv)) in H1. inversion H1; subst u0. rewrite Hne in H2.
-    pose proof (auth_proved _ _ _ _ _ _ _ HI Hc HA) as HL.
-    destruct (upgrade k s u cs (add l F_VIP)) as [s2 out] eqn:HU. cbn [fst].
-    pose proof (upgrade_ghost_Inv k s s u cs (add l F_VIP) s2 out [] (spent s2) Hu HI eq_refl eq_refl eq_refl eq_refl
-                  eq_refl (N.le_refl _) HU) as G. cbn [app] in G.
-    assert (G' : Inv (set_ghost s2 (proved s2) (spent s2))).
-    { apply G. apply add_level_proved; [exact HL|exact H2]. }
-    destruct s2; exact G'.
+    rewrite (I3 e (find_vip_in _ _ _ _ Hv)), Hne.
+    destruct (upgrade k s u cs (add l F_VIP)) as [s2 out] eqn:HU. sset.
+    match goal with |- Inv (set_ghost _ (?x :: _) _) => up_inv k s [x] Hsel Hu HI Hc end.
   - (* Totp *)
     break_step; sset; try exact HI. clean; subst.
-    match goal with |- Inv (set_ghost _ (?x :: _) _) => up_inv k s [x] Hu HI Hc end.
+    match goal with |- Inv (set_ghost _ (?x :: _) _) => up_inv k s [x] Hsel Hu HI Hc end.
   - (* U2fBegin *) break_step; sset; try exact HI; mono s.
   - (* U2fFinish *)
     break_step; sset; try exact HI; clean;
     match goal with H : a_owner _ = _ |- _ => rewrite H in * end;
     (destruct (a_wa_key a); [destruct (chal_delete_wa k)|]);
-    match goal with |- Inv (set_ghost _ (?x :: _) _) => up_inv k s [x] Hu HI Hc end.
+    match goal with |- Inv (set_ghost _ (?x :: _) _) => up_inv k s [x] Hsel Hu HI Hc end.
   - (* WaBegin *) break_step; sset; try exact HI; mono s.
   - (* WaFinish *)
     break_step; sset; try exact HI; clean;
     match goal with H : a_owner _ = _ |- _ => rewrite H in * end;
     match goal with
-    | |- Inv (set_ghost _ (?x :: ?y :: proved _) _) => up_inv k s [x; y] Hu HI Hc
-    | |- Inv (set_ghost _ (?x :: _) _) => up_inv k s [x] Hu HI Hc
+    | |- Inv (set_ghost _ (?x :: ?y :: proved _) _) => up_inv k s [x; y] Hsel Hu HI Hc
+    | |- Inv (set_ghost _ (?x :: _) _) => up_inv k s [x] Hsel Hu HI Hc
     end.
   - (* IssueOtp *) break_step; sset; try exact HI; mono s.
   - (* Bootstrap *)
     break_step; sset; try exact HI. clean; subst.
-    match goal with |- Inv (set_ghost _ (?x :: _) _) => up_inv k s [x] Hu HI Hc end.
+    match goal with |- Inv (set_ghost _ (?x :: _) _) => up_inv k s [x] Hsel Hu HI Hc end.
   - (* ShowTok *) break_step; sset; try exact HI; mono s.
   - (* SendDoc *)
     break_step; sset; try exact HI; clean.
     match goal with H : towner _ = _ |- _ => rewrite H in * end. mono s.
-    intros c' Hin. apply in_app_single in Hin. destruct Hin as [Hin| ->]; [now left|right]. cbn [cuser clevel].
-    intros g Hg. rewrite has_add, has_zero in Hg. apply N.eqb_eq in Hg. subst g. now left.
+    intros c' Hin. apply in_app_single in Hin. destruct Hin as [Hin| ->]; [now left|right].
+    split; sset; [apply Z.le_refl|].
+    intros g Hg. rewrite has_add, has_zero in Hg. apply N.eqb_eq in Hg. subst g.
+    exists (now s). split; [apply Z.le_refl|now left].
+  - (* Tick *) mono s.
 Qed.
 
 Lemma present_cert_Inv s cert : Inv s -> Inv (present_cert s cert) /\ cert_known (present_cert s cert) cert.
@@ -289,11 +334,12 @@ Proof.
 Qed.
 
 Lemma step_Inv k s o :
-  poll_checks_user k = true -> upgrade_checks_owner k = true -> Inv s -> Inv (fst (step k s o)).
+  sel_last k = upg_last k -> poll_checks_user k = true -> upgrade_checks_owner k = true ->
+  Inv s -> Inv (fst (step k s o)).
 Proof.
-  intros Hk Hu HI.
+  intros Hsel Hk Hu HI.
   assert (Hn : cert_known s None) by (intros u H; discriminate).
-  destruct o; try (apply (step_req_Inv k None false s _ Hk Hu HI Hn)).
+  destruct o; try (apply (step_req_Inv k None false s _ Hsel Hk Hu HI Hn)).
   cbn [step]. destruct (present_cert_Inv s cert HI) as [HI' Hc]. apply step_req_Inv; assumption.
 Qed.
 
@@ -305,9 +351,10 @@ Proof.
 Qed.
 
 Theorem run_Inv k ops :
-  poll_checks_user k = true -> upgrade_checks_owner k = true -> Inv (fst (run k init ops)).
+  sel_last k = upg_last k -> poll_checks_user k = true -> upgrade_checks_owner k = true ->
+  Inv (fst (run k init ops)).
 Proof.
-  intros Hk Hu. rewrite run_fst_step. generalize Inv_init. generalize init.
+  intros Hsel Hk Hu. rewrite run_fst_step. generalize Inv_init. generalize init.
   induction ops as [|o r IH]; intros s HI; [exact HI|]. cbn [fold_left]. apply IH. apply step_Inv; assumption.
 Qed.
 
@@ -481,8 +528,6 @@ Proof.
   - (* Approve *) break_step; sset; try exact HJ; try (mono2 s).
   - (* Poll *)
     break_step; sset; try exact HJ;
-    match goal with |- Inv2 (fst (upgrade ?k ?s ?u ?cs ?l)) => destruct (upgrade k s u cs l) as [s2 out] eqn:HU end;
-    sset;
     match goal with HU : upgrade _ _ _ _ _ = (_, _) |- _ =>
       destruct (upgrade_fields _ _ _ _ _ _ _ HU) as [_ [_ [_ [_ [F5 [F6 [F7 [_ [F9 [_ F11]]]]]]]]]] end;
     apply (Inv2_mono s); sset; try congruence; try exact HJ; rewrite F11; apply N.le_refl.
@@ -594,7 +639,7 @@ Qed.
 
 (* ---------------------------------------------------------------- answers about somebody else *)
 (* whom the environment's positive answer carried by the request is about *)
-Definition about (s : st) (o : op) : option N :=
+Definition about (k : config) (s : st) (o : op) : option N :=
   match o with
   | VipOtp _ (VGood owner) => Some owner
   | Totp _ (TCode owner _) => Some owner
@@ -602,7 +647,7 @@ Definition about (s : st) (o : op) : option N :=
   | U2fFinish _ a => Some (a_owner a)
   | WaFinish _ a => Some (a_owner a)
   | SendDoc _ tk => match nth_error (tokens s) tk with Some t => Some (towner t) | None => None end
-  | Poll _ v => match find_vip s v with Some e => tx_user s (vtx e) | None => None end
+  | Poll _ v => match find_vip k s v with Some e => tx_user s (vtx e) | None => None end
   | _ => None
   end.
 
@@ -617,7 +662,7 @@ Definition requester (k : config) (s : st) (cert : option N) (o : op) : option N
 
 Lemma cross_user_refused k cert fault s o u u' :
   poll_checks_user k = true -> Inv s ->
-  about s o = Some u -> requester k s cert o = Some u' -> u <> u' -> step_req k cert fault s o = (s, None).
+  about k s o = Some u -> requester k s cert o = Some u' -> u <> u' -> step_req k cert fault s o = (s, None).
 Proof.
   intros Hk HI Ha Hr Hne.
   assert (Hneb : forall x y : N, x = u -> y = u' -> N.eqb x y = false).
@@ -628,8 +673,8 @@ Proof.
     destruct code; [|discriminate]. inversion Ha; subst u. rewrite (Hneb owner w) by reflexivity. reflexivity.
   - (* Poll *)
     destruct (auth k s cert cs any_mask) as [[w l]|]; [|discriminate]. inversion Hr; subst u'.
-    destruct (find_vip s v) as [e|] eqn:Hv; [|discriminate].
-    destruct HI as [_ [_ [I3 _]]]. rewrite (I3 e (find_vip_in _ _ _ Hv)) in Ha. inversion Ha; subst u.
+    destruct (find_vip k s v) as [e|] eqn:Hv; [|discriminate].
+    destruct HI as [_ [_ [I3 _]]]. rewrite (I3 e (find_vip_in _ _ _ _ Hv)) in Ha. inversion Ha; subst u.
     rewrite Hk, (Hneb (vuser e) w) by reflexivity. reflexivity.
   - (* Totp *)
     destruct (auth k s cert cs any_mask) as [[w l]|]; [|discriminate]. inversion Hr; subst u'.
@@ -676,13 +721,17 @@ Definition expired (k : config) (s : st) (cert : option N) (o : op) : bool :=
       | None => false
       end
   | SendDoc _ tk => match nth_error (tokens s) tk with Some t => (texp t <=? now s)%Z | None => false end
+  | Poll _ v => match find_vip_raw s v with Some e => (vexp e <=? now s)%Z | None => false end
   | _ => false
   end.
 
 Lemma expired_refused k cert fault s o :
-  chal_expiry k = true -> expired k s cert o = true -> step_req k cert fault s o = (s, None).
+  chal_expiry k = true -> vip_expiry k = true -> expired k s cert o = true -> step_req k cert fault s o = (s, None).
 Proof.
-  intros Hk He. destruct o; try discriminate; cbn [expired] in He; cbn [step_req].
+  intros Hk Hv He. destruct o; try discriminate; cbn [expired] in He; cbn [step_req].
+  - (* Poll *)
+    destruct (auth k s cert cs any_mask) as [[w l]|]; [|reflexivity].
+    unfold find_vip. destruct (find_vip_raw s v) as [e|]; [|discriminate]. rewrite Hv, He. reflexivity.
   - destruct code; [|discriminate]. destruct (auth k s cert cs any_mask) as [[w l]|]; [|reflexivity].
     apply Z.ltb_lt in He. replace (totp_step (now s) - 1 <=? stp)%Z with false by (symmetry; apply Z.leb_gt; lia).
     rewrite andb_false_r. reflexivity.
@@ -700,20 +749,47 @@ Proof.
     destruct (negb (N.eqb (towner t) w)); reflexivity.
 Qed.
 
+(* ---------------------------------------------------------------- expired session cookies *)
+(* the auth_cookie indices of a request that goes through checkAuth *)
+Definition cookies_of (o : op) : option (list nat) :=
+  match o with
+  | VipOtp cs _ | PushStart cs _ | Poll cs _ | Totp cs _ | U2fBegin cs | U2fFinish cs _ | WaBegin cs | WaFinish cs _
+  | Bootstrap cs _ | ShowTok cs _ | SendDoc cs _ => Some cs
+  | _ => None
+  end.
+
+Lemma auth_expired k s cs m c :
+  pick k (attached s cs) = Some c -> (cexp c <= now s)%Z -> auth k s None cs m = None.
+Proof.
+  intros P E. unfold auth, session. rewrite P.
+  replace (cexp c <=? now s)%Z with true by (symmetry; apply Z.leb_le; exact E).
+  destruct (N.eqb (N.land m cert_mask) 0); reflexivity.
+Qed.
+
+(* a request authenticated by an expired cookie (the one checkAuth looks at) does nothing *)
+Lemma expired_cookie_refused k fault s o cs c :
+  cookies_of o = Some cs -> pick k (attached s cs) = Some c -> (cexp c <= now s)%Z ->
+  step_req k None fault s o = (s, None).
+Proof.
+  intros Ho P E. destruct o; try discriminate; cbn [cookies_of] in Ho; inversion Ho; subst; cbn [step_req];
+  rewrite (auth_expired k s cs _ c P E); reflexivity.
+Qed.
+
 (* ---------------------------------------------------------------- the code before the repairs *)
 Definition dev_all : devices := {| has_totp := true; has_u2f := true; has_wa := true; has_profile := true |}.
 Definition cfg_with (poll mono expi del : bool) : config :=
-  {| devs := fun _ => dev_all; webui := 2 ^ F_U2F; sel_last := true; poll_checks_user := poll;
+  {| devs := fun _ => dev_all; webui := 2 ^ F_U2F; cookie_life := 57600; sel_last := true; upg_last := true;
+     vip_life := 120; vip_expiry := true; poll_checks_user := poll;
      totp_monotone := mono; chal_expiry := expi; chal_delete_wa := del; upgrade_checks_owner := true |}.
 
 (* user 2 polls with the push cookie of user 1's approved transaction *)
 Definition w_poll : list op := [Login 1 true; Login 2 true; PushStart [0%nat] 7; Approve 0; Poll [1%nat] 7].
 Lemma old_poll_cross_user :
   let s := fst (run (cfg_with false true true true) init w_poll) in
-  exists c, In c (issued s) /\ cuser c = 2%N /\ has (clevel c) F_VIP = true /\ ~ In (2%N, F_VIP) (proved s).
+  exists c, In c (issued s) /\ cuser c = 2%N /\ has (clevel c) F_VIP = true /\ forall t, ~ In (2%N, F_VIP, t) (proved s).
 Proof.
   eexists. split; [vm_compute; right; right; left; reflexivity|]. split; [reflexivity|]. split; [vm_compute; reflexivity|].
-  vm_compute. intros [H|[H|[H|H]]]; try discriminate; exact H.
+  vm_compute. intros t [H|[H|[H|[H|H]]]]; try discriminate; exact H.
 Qed.
 
 (* a code accepted in step n is accepted again in step n+1 *)
@@ -748,33 +824,74 @@ Qed.
    OTP while the password-only cookie of user 2 is attached — user 2's cookie gains the factors *)
 Definition dev_none : devices := {| has_totp := false; has_u2f := false; has_wa := false; has_profile := true |}.
 Definition cfg_old_upgrade : config :=
-  {| devs := fun _ => dev_none; webui := 2 ^ F_U2F; sel_last := true; poll_checks_user := true;
+  {| devs := fun _ => dev_none; webui := 2 ^ F_U2F; cookie_life := 57600; sel_last := true; upg_last := true;
+     vip_life := 120; vip_expiry := true; poll_checks_user := true;
      totp_monotone := true; chal_expiry := true; chal_delete_wa := true; upgrade_checks_owner := false |}.
 Definition cfg_new_upgrade : config :=
-  {| devs := fun _ => dev_none; webui := 2 ^ F_U2F; sel_last := true; poll_checks_user := true;
+  {| devs := fun _ => dev_none; webui := 2 ^ F_U2F; cookie_life := 57600; sel_last := true; upg_last := true;
+     vip_life := 120; vip_expiry := true; poll_checks_user := true;
      totp_monotone := true; chal_expiry := true; chal_delete_wa := true; upgrade_checks_owner := true |}.
 Definition w_cert : list op :=
   [Login 2 true; IssueOtp 1 3600; Req (Some 1%N) false (Bootstrap [0%nat] (BCode 1 0))].
 Lemma old_cert_cookie :
   let s := fst (run cfg_old_upgrade init w_cert) in
   (exists c, In c (issued s) /\ cuser c = 2%N /\ has (clevel c) F_BOOT = true /\ has (clevel c) F_X509 = true /\
-             ~ In (2%N, F_BOOT) (proved s) /\ ~ In (2%N, F_X509) (proved s)) /\
+             (forall t, ~ In (2%N, F_BOOT, t) (proved s)) /\ (forall t, ~ In (2%N, F_X509, t) (proved s))) /\
   nth 2 (snd (run cfg_new_upgrade init w_cert)) None = None.
 Proof.
   split; [|vm_compute; reflexivity].
   eexists. split; [vm_compute; right; left; reflexivity|]. split; [reflexivity|].
   split; [vm_compute; reflexivity|]. split; [vm_compute; reflexivity|].
-  split; vm_compute; intros [H|[H|[H|H]]]; try discriminate; exact H.
+  split; vm_compute; intros t [H|[H|[H|H]]]; try discriminate; exact H.
 Qed.
+
+(* an upgrade that re-signs the FIRST of several auth_cookie values while checkAuth authenticates
+   the LAST (both of the same user, so the owner test passes): user 1 proves TOTP in an old session,
+   logs in again an hour later, and answers a hardware-token challenge with [new cookie; old cookie]
+   attached.  The new session — which ends an hour later than the old one — comes back with the TOTP
+   bit although TOTP was never verified during it *)
+Definition cfg_first_cookie (lst : bool) : config :=
+  {| devs := fun _ => dev_all; webui := 2 ^ F_U2F; cookie_life := 57600; sel_last := true; upg_last := lst;
+     vip_life := 120; vip_expiry := true; poll_checks_user := true;
+     totp_monotone := true; chal_expiry := true; chal_delete_wa := true; upgrade_checks_owner := true |}.
+Definition w_first : list op :=
+  [Tick 3000; Login 1 true; Totp [0%nat] (TCode 1 100); Tick 3600; Login 1 true;
+   U2fBegin [2%nat; 1%nat]; U2fFinish [2%nat; 1%nat] (asrt 1 0 false)].
+Lemma old_first_cookie :
+  (let s := fst (run (cfg_first_cookie false) init w_first) in
+   exists c, In c (issued s) /\ cuser c = 1%N /\ has (clevel c) F_TOTP = true /\ ciat c = 6600%Z /\
+             forall t, In (1%N, F_TOTP, t) (proved s) -> (t < ciat c)%Z) /\
+  (let s := fst (run (cfg_first_cookie true) init w_first) in
+   exists c, nth 6 (snd (run (cfg_first_cookie true) init w_first)) None = Some c /\ ciat c = 3000%Z).
+Proof.
+  split.
+  - eexists. split; [vm_compute; right; right; right; left; reflexivity|]. split; [reflexivity|].
+    split; [vm_compute; reflexivity|]. split; [reflexivity|].
+    vm_compute. intros t [H|[H|[H|[H|H]]]]; try discriminate; try contradiction.
+    inversion H; subst. reflexivity.
+  - eexists. split; vm_compute; reflexivity.
+Qed.
+
+(* a push transaction polled five minutes after it was started (lifetime: two minutes) *)
+Definition cfg_vip_expiry (b : bool) : config :=
+  {| devs := fun _ => dev_all; webui := 2 ^ F_U2F; cookie_life := 57600; sel_last := true; upg_last := true;
+     vip_life := 120; vip_expiry := b; poll_checks_user := true;
+     totp_monotone := true; chal_expiry := true; chal_delete_wa := true; upgrade_checks_owner := true |}.
+Definition w_vip_exp : list op := [Login 1 true; PushStart [0%nat] 7; Approve 0; Tick 300; Poll [0%nat] 7].
+Lemma old_vip_expiry :
+  nth 4 (snd (run (cfg_vip_expiry false) init w_vip_exp)) None <> None /\
+  nth 4 (snd (run (cfg_vip_expiry true) init w_vip_exp)) None = None.
+Proof. split; [vm_compute; discriminate|vm_compute; reflexivity]. Qed.
 
 (* the ghost record of a presented certificate is invisible to the handlers *)
 Lemma auth_present k s c cert cs m : auth k (present_cert s c) cert cs m = auth k s cert cs m.
 Proof.
-  unfold auth, session. rewrite (attached_ext s (present_cert s c) cs) by (destruct c; reflexivity). reflexivity.
+  unfold auth, session. rewrite (attached_ext s (present_cert s c) cs) by (destruct c; reflexivity).
+  replace (now (present_cert s c)) with (now s) by (destruct c; reflexivity). reflexivity.
 Qed.
 
 Lemma requester_present k s c cert o : requester k (present_cert s c) cert o = requester k s cert o.
 Proof. destruct o; cbn [requester]; rewrite ?auth_present; reflexivity. Qed.
 
-Lemma about_present s c o : about (present_cert s c) o = about s o.
+Lemma about_present k s c o : about k (present_cert s c) o = about k s o.
 Proof. destruct c; reflexivity. Qed.
